@@ -10,6 +10,7 @@ Program ops (a flat list; every `with_*` / `engine_begin` / `sm_begin` block is 
     begin          await conn.begin()                         with_begin     async with conn.begin():
     nested         await conn.begin_nested()                  with_nested    async with conn.begin_nested():
     exec           await conn.execute(INSERT next row)        commit / rollback   await conn.commit() / rollback()
+    sleep          await asyncio.sleep(0): the task awaits something that is not the database (at most one per program)
     with_session   async with AsyncSession(engine) as s:      sm_begin       async with async_sessionmaker(engine).begin() as s:
     s_begin        async with s.begin():                      s_exec         await s.execute(INSERT next row)
     s_commit / s_rollback                                     (a `connect` without `close` is never closed: garbage collected)
@@ -44,8 +45,8 @@ OPENERS = ("with_connect", "engine_begin", "with_begin", "with_nested", "with_se
 
 
 # ------------------------------------------------------------------------------------------ grammar
-CONN_OPS = ("exec", "commit", "rollback", "begin", "nested")
-SESS_OPS = ("s_exec", "s_commit", "s_rollback")
+CONN_OPS = ("exec", "commit", "rollback", "begin", "nested", "sleep")
+SESS_OPS = ("s_exec", "s_commit", "s_rollback", "sleep")
 
 
 def programs(maxops, session=True):
@@ -81,7 +82,9 @@ def programs(maxops, session=True):
                 continue
             if op in ("commit", "rollback") and inbegin:
                 continue          # ending the transaction of an enclosing begin-block by hand makes later statements raise
-            conn_body(prefix + [op], stack, {"exec": True, "begin": True, "nested": True, "commit": False, "rollback": False}[op])
+            if op == "sleep" and "sleep" in prefix:
+                continue          # one non-database await per program
+            conn_body(prefix + [op], stack, {"exec": True, "begin": True, "nested": True, "commit": False, "rollback": False, "sleep": txn}[op])
         if room - 2 >= need:
             if not txn:
                 conn_body(prefix + ["with_begin"], stack + ["with_begin"], True)
@@ -98,9 +101,11 @@ def programs(maxops, session=True):
             sess_body(prefix + ["exit"], stack[:-1], False)
         inbegin = prefix[0] == "sm_begin" or "s_begin" in stack
         for op in SESS_OPS:
-            if op != "s_exec" and inbegin:
+            if op in ("s_commit", "s_rollback") and inbegin:
                 continue
-            sess_body(prefix + [op], stack, op == "s_exec" or (txn and inbegin))
+            if op == "sleep" and "sleep" in prefix:
+                continue
+            sess_body(prefix + [op], stack, txn if op == "sleep" else (op == "s_exec" or (txn and inbegin)))
         if not txn and room - 2 >= need:
             sess_body(prefix + ["s_begin"], stack + ["s_begin"], True)
 
@@ -225,6 +230,8 @@ class Case:
             await R["conn"].commit()
         elif op == "rollback":
             await R["conn"].rollback()
+        elif op == "sleep":
+            await asyncio.sleep(0)        # the task awaits something that is not the database
         elif op == "s_exec":
             self.nrow += 1
             await R["s"].execute(sa.text("insert into t (id) values (:k)"), {"k": self.nrow})
